@@ -413,11 +413,104 @@ def witness : Program :=
 theorem witness_core : runCore witness false = runCoreNC witness false :=
   runCore_noCleanups witness false (by decide)
 
+theorem C05_finding_witness_class : lateCollision ⟨witness, 1⟩ = true := by
+  simp only [lateCollision, clobberedRuns, witness_core]
+  decide
+
 theorem C05_finding_witness : ∃ i, lateCollision i = true ∧ holds i (model i) = false := by
-  refine ⟨⟨witness, 1⟩, ?_, ?_⟩
-  · simp only [lateCollision, clobberedRuns, witness_core]
-    decide
-  · simp only [model, runMany, runOnce, witness_core]
-    decide
+  refine ⟨⟨witness, 1⟩, C05_finding_witness_class, ?_⟩
+  simp only [model, runMany, runOnce, witness_core]
+  decide
+
+/-! ## readable statements -/
+
+/-- C05 (renaming never overwrites): `addDetailUniqueName(n, c)` appends a new entry — under `n` itself or a
+`-k` renaming of it that is not yet a key of the dict; every entry present before is still there, unchanged.
+(The rename loop of `addDetailUniqueName` / `gather_details` always finds a free name.) -/
+theorem C05_unique_never_overwrites (d : Details) (n : DName) (c : Content) :
+    addUnique d n c = d ++ [(uniq d n, c)] ∧ uniq d n ∉ dnames d ∧ isRenaming n (uniq d n) = true :=
+  ⟨dset_of_not_mem d _ c (uniq_not_mem d n), uniq_not_mem d n, uniq_renaming d n⟩
+
+/-- C05 (traceback labels never overwrite): `_report_traceback` stores the traceback under a label
+(`traceback`, `traceback-1`, `traceback-1-2`, …) that is not yet a key of the dict — the label loop has enough
+fuel by a pigeonhole argument on the strictly growing suffix lists. -/
+theorem C05_traceback_never_overwrites (s : RS) (e : Exc) :
+    (reportTb s e).details = s.details ++ [(tbName s, .tb e)] ∧ tbName s ∉ dnames s.details := by
+  refine ⟨?_, tbName_fresh s⟩
+  rw [reportTb_details, dset_of_not_mem _ _ _ (tbName_fresh s)]
+
+/-- C05 (tracebacks, outside the finding class): on results that receive the details dict, the tracebacks among
+the reported details are exactly — as a multiset, none lost, none invented, none twice — those of every
+exception handed to the runner whose class is not exempt (skip / expected failure / unexpected success), in
+whatever stage it was raised (constituents of MultipleExceptions counted separately, the forced failure
+included), plus the assertion behind each `expectFailure` and the failure caught by the expectedFailure
+decorator.  Hypothesis: no plain `addDetail` replaced a generated entry in this run (finding D3).
+Full statement (false, see `C05_finding_witness`): the same without the hypothesis `hcl`. -/
+theorem C05_tracebacks_partial (p : Program) (ff0 : Bool) (hwf : wf p = true) (hskip : p.skipDeco = none)
+    (hsd : showsDetails p.flavour = true) (hcl : (runCore p ff0).1.clobbered = false) :
+    (tbsIn (detailsOf (runOnce p ff0))).Perm
+      (tbFilter (runCore p ff0).1.excs ++ (runCore p ff0).1.execd.flatMap (extraTbs p)) := by
+  obtain ⟨o, r, sel, _, hshape⟩ := runOnce_shape_d p ff0 hwf hskip
+  have cf := runCore_facts p ff0 hwf hskip
+  obtain ⟨T, A, U, hD⟩ := runCore_invD p ff0 hwf
+  have hT := (hD.js.final (handlers p) sel).tbs hcl
+  rw [hshape]
+  simp only [detailsOf_shape _ _ cf.logPure, visibleDetails, hsd, if_true, tbsIn_frozen, hT]
+  exact hD.tperm
+
+/-- C05 (user details): on results that receive the details dict, every name attached by plain `addDetail`
+arrives with the value of the last `addDetail` for that name, its bytes read when the outcome is reported —
+whatever else happened in the run (also inside the finding class). -/
+theorem C05_user_details (p : Program) (ff0 : Bool) (hwf : wf p = true) (hskip : p.skipDeco = none)
+    (hsd : showsDetails p.flavour = true) (n : DName) (c : UC)
+    (h : lastAdd ((runCore p ff0).1.execd.flatMap fun st => plainOf st.acts) n = some c) :
+    (detailsOf (runOnce p ff0)).find? (fun x => x.1 == n) = some (n, evalAt (runCore p ff0).1.clock c) := by
+  obtain ⟨o, r, sel, _, hshape⟩ := runOnce_shape_d p ff0 hwf hskip
+  have cf := runCore_facts p ff0 hwf hskip
+  obtain ⟨T, A, U, hD⟩ := runCore_invD p ff0 hwf
+  have hJ := hD.js.final (handlers p) sel
+  rw [hshape]
+  simp only [detailsOf_shape _ _ cf.logPure, visibleDetails, hsd, if_true]
+  rw [find_frozen, hJ.ud n c (hD.adds ▸ h)]
+  simp [freeze_user]
+
+/-- C05 (names): the reported details never contain a name twice. -/
+theorem C05_names_distinct (p : Program) (ff0 : Bool) (hwf : wf p = true) :
+    ((detailsOf (runOnce p ff0)).map (·.1)).Nodup := by
+  have := clause_namesDistinct p ff0 hwf
+  simpa [cNamesDistinct, idsNodupN_iff] using this
+
+/-- C05 (onException handlers): every handler registered with `addOnException` is called exactly once per
+exception handed to the runner, in registration order, exception by exception — and all of these calls precede
+the outcome event. -/
+theorem C05_onexception (p : Program) (ff0 : Bool) (hwf : wf p = true) (hskip : p.skipDeco = none) :
+    onExcOf (runOnce p ff0) = handlerCalls p.nOnExc (runCore p ff0).1.excs ∧
+    ((runOnce p ff0).events.dropWhile fun | .outcome _ _ => false | _ => true).all
+      (fun | .onExc _ _ => false | _ => true) = true := by
+  have := clause_onException p ff0 hwf
+  simp only [cOnException, hskip, Option.isSome_none, Bool.false_or, Bool.and_eq_true, beq_iff_eq] at this
+  refine ⟨?_, this.2⟩
+  rw [this.1]
+  obtain ⟨o, d, r, sel, _, hshape⟩ := runOnce_shape p ff0 hwf hskip
+  rw [hshape, (reads_of p ff0 hwf hskip _ _ _ _ _ _).raised]
+  rfl
+
+/-- C05 (skip reason): a skip reported by the case's own skip reporter carries a `reason` detail, and it is the
+reason of one of the skip exceptions raised in the run (the selected one). -/
+theorem C05_reason (p : Program) (ff0 : Bool) (hwf : wf p = true) : cReason p ff0 (runOnce p ff0) = true :=
+  clause_reason p ff0 hwf
+
+/-! ## non-vacuity -/
+/-- the hypotheses of `C05_tracebacks_partial` are satisfiable: a failing test with a failing cleanup, a
+fixture with details, a mismatching `expectThat` and a plain detail, nothing clobbered -/
+def demo : Program :=
+  { skipDeco := none, xfailDeco := false
+    setUp := .mk 1 [.addDetail ⟨3, []⟩ ⟨1, true⟩] .ret
+    body := .mk 2 [.expect 0 [(⟨3, []⟩, ⟨2, false⟩)]] (.raise1 ⟨.failure, 1⟩)
+    tearDown := .mk 3 [] (.raise1 ⟨.exc, 2⟩)
+    userHandlers := [], nOnExc := 2, attrs0 := [], flavour := .ext }
+
+example : wf demo = true ∧ demo.skipDeco = none ∧ showsDetails demo.flavour = true := by decide
+example : lateCollision ⟨witness, 1⟩ = true := C05_finding_witness_class
 
 end TTV.Props.C05
